@@ -322,6 +322,54 @@ def constrained_params_cases(run, keys):
                             theorem="C02_formula_" + key)
 
 
+def partial_params_cases(run, keys):
+    """parameter sets that leave out arguments with documented defaults
+    (contact_point = 0, baseline = 0): model() evaluates the formula with the
+    defaults for what is missing and the given values for the rest"""
+    import lmfit
+    from nanite import model
+    for key in sorted(keys):
+        md = model.models_available[key]
+        full = md.get_parameter_defaults()
+        names = list(full.keys())
+        x = np.linspace(8e-7, -1.2e-6, 9)
+        for drop in (["contact_point"], ["baseline"],
+                     ["contact_point", "baseline"]):
+            for orient in (1, -1):
+                xx = x[::orient].copy()
+                run.case({"partial-params": key, "missing": drop,
+                          "orientation": orient}, kind="partial")
+                fk = f"partial:{key}:{'+'.join(drop)}:{orient}"
+                try:
+                    p = lmfit.Parameters()
+                    vals = {}
+                    for n_ in names:
+                        if n_ in drop:
+                            continue
+                        v = {"contact_point": 2e-7,
+                             "baseline": 3.5e-10}.get(n_, float(full[n_].value))
+                        p.add(n_, value=v)
+                        vals[n_] = v
+                    got = np.array(md.model(p, xx), copy=True)
+                    asc = xx[0] < xx[-1]
+                    inner = md.module.model_func(
+                        (xx[::-1] if asc else xx).copy(), **vals)
+                    want = np.asarray(inner[::-1] if asc else inner)
+                    ok = got.tobytes() == want.tobytes()
+                except BaseException as e:
+                    run.failing(SITE, fk, f"{key} without {drop}: raised "
+                                f"{type(e).__name__}: {e}",
+                                payload={"kind": "rerun"})
+                    continue
+                if not ok:
+                    run.failing(SITE, fk, f"{key}: model() with a parameter "
+                                f"set that leaves out {drop} differs from "
+                                "the formula with the documented defaults "
+                                f"(max {float(np.max(np.abs(got - want))):.3g})",
+                                payload={"kind": "rerun"},
+                                theorem="C02_formula_" + key)
+
+
 def sneddon_documented_bound(run):
     """numerical cross-check of the documented 1e-4 bound against the exact
     implicit solution (the Coq theorem C02_sneddon_series_close is the proof)"""
@@ -396,6 +444,7 @@ def check(run):
     sneddon_documented_bound(run)
     try:
         constrained_params_cases(run, dict(gen_formulas.SHIPPED))
+        partial_params_cases(run, dict(gen_formulas.SHIPPED))
     except BaseException as e:
         run.obligation("constrained-params-completed", False,
                        f"{type(e).__name__}: {e}")
